@@ -667,6 +667,22 @@ theorem infoNew_consistent (pc : PCodec) (hpc : pc.Lawful) (ts sid : Nat)
     (hts : ts < 2 ^ SI_TIMESTAMP_BITS) (hsid : sid < 2 ^ SI_SEGID_BITS) : InfoConsistent pc (infoNew pc ts sid) :=
   ⟨hpc.info _, hts, hsid⟩
 
+/-- The boundary case of `seg_rpc_roundtrip` spelled out: under proto3 encoding rules the info
+`(timestamp 0, segment id 0)` is encoded as the **empty** byte string (`hempty`: default values are omitted;
+`hdec`: an absent field reads as its default), so a segment built with `SegmentInfo::new(0, 0)` travels with an
+empty `segment_info` field – and is received as the same value.  (A guard `segment_info.is_empty() ⇒ error` in
+`try_from_rpc` falsifies this; harness key `C18:segment-roundtrip:default-info`.) -/
+theorem seg_rpc_roundtrip_default_info (pc : PCodec)
+    (hempty : pc.encInfo { timestamp := 0, segmentId := 0 } = [])
+    (hdec : pc.decInfo [] = some { timestamp := 0, segmentId := 0 })
+    (entries : List (SEntry AsEntry)) (hent : ∀ e ∈ entries, Consistent pc e) :
+    (segToRpc pc { info := infoNew pc 0 0, entries := entries }).segmentInfo = [] ∧
+    segFromRpc pc (segToRpc pc { info := infoNew pc 0 0, entries := entries }) =
+      .ok { info := infoNew pc 0 0, entries := entries } := by
+  refine ⟨by simp [segToRpc, infoNew, hempty], ?_⟩
+  refine seg_rpc_roundtrip pc _ ⟨?_, Nat.pow_pos (by decide), Nat.pow_pos (by decide)⟩ hent
+  simpa [infoNew, hempty] using hdec
+
 /-- everything `try_from_rpc` returns is consistent … -/
 theorem seg_from_rpc_consistent (pc : PCodec) (r : RSegment) (s : Segment) (h : segFromRpc pc r = .ok s) :
     InfoConsistent pc s.info ∧ ∀ e ∈ s.entries, Consistent pc e := by
@@ -1002,6 +1018,15 @@ def toyCheck : Bool :=
 /-- `signed_validates` / `validate_binds` / `replay_extension_validates` / `index_form_rejects_replay` are
 not vacuous -/
 example : toyCheck = true := by decide
+
+/-- a protobuf layer with proto3 behaviour on the all-default info: hypotheses of `seg_rpc_roundtrip_default_info` hold -/
+def toyPCodec : PCodec :=
+  { c := toyCodec, decBody := fun _ => none, encBody := fun _ => [],
+    decInfo := fun b => if b = [] then some { timestamp := 0, segmentId := 0 } else none,
+    encInfo := fun _ => [] }
+example : segFromRpc toyPCodec (segToRpc toyPCodec { info := infoNew toyPCodec 0 0, entries := [] }) =
+    .ok { info := infoNew toyPCodec 0 0, entries := [] } :=
+  (seg_rpc_roundtrip_default_info toyPCodec rfl rfl [] (by simp)).2
 
 /-- the byte strings signed for the positions of a segment (index form) -/
 def boundStrings (seg : Seg Nat) : List Bytes :=
